@@ -278,7 +278,7 @@ fn gram_suite(run: &Run, k: &K, pts: &[f64]) {
 }
 
 pub fn run(run: &Run) {
-    run.rule("RBF (25) and rational-quadratic (125) kernels over the parameter lattice {1e-2,.5,1,3,1e2}; scalar form on all 64 ordered pairs of an 8-point lattice in ±1e3 × {f64,&f64}; matrix form on every ordered tuple of 1..=2 (3 thorough) first-argument points × 1..=3 second-argument points for 6 kernels × 4 argument kinds and on fixed n≠m tuples for all kernels; Gram matrices of every point set of size 1..=5 (6 thorough) from the lattice; non-trivial = distinct points");
+    run.rule("RBF (25) and rational-quadratic (125) kernels over the parameter lattice {1e-2,.5,1,3,1e2}; scalar form on all 64 ordered pairs of an 8-point lattice in ±1e3 × {f64,&f64}; matrix form on every ordered tuple of 1..=2 (3 thorough) first-argument points × 1..=3 second-argument points for 6 kernels × 4 argument kinds and on fixed n≠m tuples and a set of nearly coincident points (1–3 ulps apart) for all kernels; Gram matrices of every point set of size 1..=5 (6 thorough) from the lattice; non-trivial = distinct points");
     // self-test of the eigenvalue oracle
     let e1 = jacobi_min_eig(&[2.0, -1.0, -1.0, 2.0].map(DD::new), 2);
     let e2 = jacobi_min_eig(&[1.0, 2.0, 0.0, 2.0, 1.0, 2.0, 0.0, 2.0, 1.0].map(DD::new), 3);
@@ -293,6 +293,12 @@ pub fn run(run: &Run) {
         matrix_suite(run, k, &[-2.0, 0.5, 3.0], &[0.0, 1.0], &[0, 1, 2, 3]);
         matrix_suite(run, k, &[1.0], &[-1.0, 0.0, 0.5, 1e3], &[0, 1, 2, 3]);
         matrix_suite(run, k, &[-1e3, 1e3, 0.5, 0.5, 3.0], &[3.0, -1e3], &[1, 3]);
+        // nearly coincident points (a few ulps apart): the ‖x‖²+‖y‖²−2xy form cancels to ±rounding there
+        let s27: f64 = (0..27).map(|_| 0.1).sum();
+        let near = [2.7, s27, f64::from_bits(2.7f64.to_bits() + 1), f64::from_bits(2.7f64.to_bits() - 3), 0.3, 0.1 + 0.2, 1e3, f64::from_bits(1e3f64.to_bits() + 1), -7.1, f64::from_bits((-7.1f64).to_bits() + 2)];
+        matrix_suite(run, k, &near, &near, &[0, 1, 2, 3]);
+        matrix_suite(run, k, &near[..4], &near[4..], &[1, 2]);
+        gram_suite(run, k, &near[..6]);
     });
     run.sample(|| "RQ{var=1,alpha=1,l=1}: k(0,2) must be (1+2)^-1 = 1/3 <= k(0,0) = 1; forward([-2,.5,3],[0,1]) is 3x2 and equals the scalar form entry by entry".to_string());
     // all ordered tuples for a subset of kernels
